@@ -246,8 +246,86 @@ def r11_4(ctx):
     ctx.check(len(fb) == 1, "invalid-utf8-fallback", u.where(), "non-UTF-8 input falls back to escaped_printable_ascii(bytes)")
 
 
+def _char_predicates(body):
+    """names of char-classification methods called in a body (`is_other`, `is_control`, ...)"""
+    out = set()
+    for bb, t in body.calls():
+        m = method_name(callee_name(t, resolved=False) or "")
+        last = m.split("::")[-1]
+        if last.startswith("is_") and (m.startswith("UnicodeCategories::") or m.startswith("char::") or "char" in (t.get("self_ty") or "")):
+            out.add(last)
+    return out
+
+
+def r11_5(ctx):
+    """sibling agreement (unicode mode): the predicate that decides *whether a character is escaped*, the one that decides
+    whether backslashes must be doubled, and the one behind Escaper::has_unprintable (which decides the ` (escaped)` marker of
+    canonical renderings) must be the same classification"""
+    prog = ctx.prog
+    u = prog.fn("escaped_printable_unicode")
+    h = prog.fn("has_unprintable_unicode")
+    per_char = [c for c in prog.closures_of(u) if any((callee_name(t) or "").endswith("escaped_printable_ascii") for _, t in c.calls())]
+    flag = [c for c in prog.closures_of(u) if c not in per_char]
+    hc = prog.closures_of(h)
+    if len(per_char) != 1:
+        raise AnchorError("escaped_printable_unicode: per-char closure not found")
+    p_escape = _char_predicates(per_char[0])
+    ctx.check(p_escape == {"is_other"}, "escape-predicate", per_char[0].where(), "a character is escaped iff UnicodeCategories::is_other(c)",
+              "the escape decision uses %s" % sorted(p_escape))
+    p_has = set()
+    for c in hc:
+        p_has |= _char_predicates(c)
+    p_has |= _char_predicates(h)
+    # fn items passed as values (any(char::is_control))
+    for b in [h] + hc:
+        for bb, t in b.calls():
+            for a in t["args"]:
+                cst = a.get("const")
+                if cst and cst.get("val", {}).get("kind") == "zst" and "fn" in cst["val"]:
+                    nm = cst["val"]["fn"].split("::")[-1]
+                    if nm.startswith("is_"):
+                        p_has.add(nm)
+    ctx.check(p_has == p_escape, "has-unprintable-agrees", h.where(),
+              "has_unprintable_unicode classifies with the same predicate as the escaper (%s)" % sorted(p_escape),
+              "has_unprintable_unicode classifies characters with %s but escaped_printable_unicode escapes on %s: text that is escaped in a rendering is not "
+              "recognised as needing the ` (escaped)` marker (or vice versa), so the canonical rendering of an expectation re-parses to different line contents"
+              % (sorted(p_has), sorted(p_escape)))
+    p_flag = set()
+    for c in flag:
+        p_flag |= _char_predicates(c)
+    for bb, t in u.calls():
+        for a in t["args"]:
+            cst = a.get("const")
+            if cst and cst.get("val", {}).get("kind") == "zst" and "fn" in cst["val"] and cst["val"]["fn"].split("::")[-1].startswith("is_"):
+                p_flag.add(cst["val"]["fn"].split("::")[-1])
+    if p_flag:
+        ctx.check(p_flag == p_escape, "backslash-flag-agrees", u.where(), "the `double the backslashes` flag is computed with the same predicate as the escape decision",
+                  "backslashes are doubled when some character %s, but characters are escaped when they %s: lines with escapes of the other classes keep raw backslashes"
+                  % (sorted(p_flag), sorted(p_escape)))
+    # Escaper dispatch: has_unprintable / escaped_printable / escaped_expectation route each mode to its own functions
+    for name, want in (("Escaper::has_unprintable", ("has_unprintable_ascii", "has_unprintable_unicode")),
+                       ("Escaper::escaped_printable", ("escaped_printable_ascii", "escaped_printable_unicode")),
+                       ("Escaper::escaped_expectation", ("escaped_expectation_ascii", "escaped_expectation_unicode"))):
+        f = prog.fn(name)
+        from ..cfgq import variant_edges, switches, explore, place_key
+        ok = False
+        for sb, st in switches(f):
+            ve, rv = variant_edges(f, sb)
+            if ve is None or set(ve) != {"Ascii", "Unicode"}:
+                continue
+            pk = place_key(rv["place"])
+            got = {}
+            for v, tg in ve.items():
+                reg = set(explore(f, tg, {pk: v}).keys())
+                other = set(explore(f, ve["Unicode" if v == "Ascii" else "Ascii"], {pk: "Unicode" if v == "Ascii" else "Ascii"}).keys())
+                got[v] = sorted({(callee_name(t) or "").split("::")[-1] for bb, t in f.calls() if bb in reg - other})
+            ok = got.get("Ascii") == [want[0]] and got.get("Unicode") == [want[1]]
+        ctx.check(ok, "dispatch:" + name.split("::")[-1], f.where(), "%s routes Ascii -> %s, Unicode -> %s" % (name, want[0], want[1]), "%s dispatch is wrong" % name)
+
+
 def run(ctx):
     ctx.run_rule("R11.1", "ascii tables: decode(encode(b))==[b] for all bytes != LF and all ordered pairs; outputs printable; identity set = 0x20..=0x7e minus `\\` [E-TABLE]", r11_1, floor=5)
     ctx.run_rule("R11.2", "escape-introducer: a rendering that contains escapes never contains the decoder's introducer `\\` unescaped (ascii guard, unicode per-char closure) [E-PATH]", r11_2, floor=4)
     ctx.run_rule("R11.3", "` (escaped)` is appended exactly on the `rendering != raw text` edge; both operands from trim_newlines(line) [E-PATH]", r11_3, floor=8)
+    ctx.run_rule("R11.5", "sibling agreement (unicode): escape decision, backslash-doubling flag and has_unprintable use the same character class; Escaper dispatch per mode [E-TABLE]", r11_5, floor=5)
     ctx.run_rule("R11.4", "unicode mode emits a character unchanged only on the !is_other edge; invalid UTF-8 falls back to ascii [E-PATH]", r11_4, floor=3)
